@@ -375,9 +375,18 @@ func createStrFunctions() { //nolint:funlen // we do have quite a few, yes.
 		if len(args) == 2 {
 			sep = args[1].(object.String).Value
 		}
+		// Check the size of the result before building it: strings.Split allocates a string header per part
+		// and each part becomes an object in an array of objects (3 object sizes per part), which for a short or
+		// empty separator is many times the size of the input.
+		var l int
+		if sep == "" {
+			l = utf8.RuneCountInString(inp)
+		} else {
+			l = strings.Count(inp, sep) + 1
+		}
+		object.MustBeOk(3 * l)
 		parts := strings.Split(inp, sep)
-		l := len(parts)
-		object.MustBeOk(l)
+		l = len(parts)
 		strs := make([]object.Object, l)
 		for i, p := range parts {
 			strs[i] = object.String{Value: p}
